@@ -306,6 +306,7 @@ Effect(i, a, rto, postDisk) ==
     [] a.name = "Campaign" -> viaStep(Msg("Hup", 0))
     [] a.name = "Propose" -> viaStep([Msg("Prop", 0) EXCEPT !.from = i, !.entries = a.ents])
     [] a.name = "ProposeConfChange" -> viaStep([Msg("Prop", 0) EXCEPT !.entries = a.ents])
+    [] a.name = "ProposeBatch" -> viaStep([Msg("Prop", 0) EXCEPT !.from = i, !.entries = a.ents])
     [] a.name = "ReadIndex" -> [viaStep([Msg("ReadIndex", 0) EXCEPT !.entries = a.ents]) EXCEPT !.ret = "ok"]
     [] a.name = "TransferLeader" -> [viaStep([Msg("TransferLeader", 0) EXCEPT !.from = a.to]) EXCEPT !.ret = "ok"]
     [] a.name = "ForgetLeader" -> viaStep(Msg("ForgetLeader", 0))
